@@ -2,18 +2,21 @@
 
 1. dict-with-literal-keys as a record: `x['first']` on a parameter declared with a record type is the record
    projection named in the spec (the dicts built by `_load_cf_axis_info` have a fixed key set).
-2. statement slicing: for a function whose body is mostly I/O (xarray / gdal / cartopy calls) the spec names the
-   *targets* (local variables) whose defining assignments are pyresample's own arithmetic.  Exactly those top-level
-   assignments are kept, in source order, and wrapped into `def f(<declared inputs>): ...; return <ret>`.
-   Fail-closed conditions: every target is assigned exactly once in the whole function, at the top level of the
-   body; every declared input is a function argument or is assigned exactly once in the whole function (so the value
-   the kept statements read is the one the skipped I/O statement produced).
+2. statement slicing: for a function whose body is mostly I/O (xarray / gdal / cartopy calls) the spec locates the
+   *outputs* structurally (the value under a key of the returned dict, an argument of a named call) and the *inputs*
+   (a parameter, the value under a key of the returned dict, an element of a tuple-unpacked call).  The backward slice
+   of the outputs over the top-level simple assignments, down to the inputs, is wrapped into
+   `def f(<inputs>): ...; return <outputs>`.  Local variable names play no role.
+   Fail-closed conditions: every input is a parameter or assigned exactly once in the whole function; a name the
+   slice depends on may only be bound by simple top-level assignments (never inside if/for/try/with); every located
+   call / dict key must exist exactly once.
 
 Everything else (expression/statement semantics, typing, literals) is py2coq's.  The module is registered by
 harness/c20.py by wrapping `py2coq.translate_module` for the module name "GenC20" in this process only.
 """
 import ast
 import hashlib
+import json
 
 import py2coq
 from py2coq import Untranslatable, _fail
@@ -44,7 +47,7 @@ class Fn20(py2coq.Fn):
 
 
 def _stores(fdef):
-    """name -> number of binding occurrences in the whole function (assignments, loops, with, except, walrus)."""
+    """name -> number of binding occurrences in the whole function (assignments, loops, with, except, imports)."""
     out = {}
     for node in ast.walk(fdef):
         if isinstance(node, ast.Name) and isinstance(node.ctx, (ast.Store, ast.Del)):
@@ -58,31 +61,144 @@ def _stores(fdef):
     return out
 
 
+def _dotted(f):
+    if isinstance(f, ast.Name):
+        return f.id
+    if isinstance(f, ast.Attribute):
+        b = _dotted(f.value)
+        return None if b is None else b + "." + f.attr
+    return None
+
+
+def _return_dict(fdef):
+    rets = [s for s in fdef.body if isinstance(s, ast.Return) and isinstance(s.value, ast.Dict)]
+    if len(rets) != 1:
+        raise Untranslatable("expected exactly one top-level `return {...}`")
+    d = rets[0].value
+    keys = {}
+    for k, v in zip(d.keys, d.values):
+        if not (isinstance(k, ast.Constant) and isinstance(k.value, str)):
+            raise Untranslatable("returned dict has a non-literal key")
+        keys[k.value] = v
+    return fdef.body.index(rets[0]), keys
+
+
+def _locate(fdef, where):
+    """(index of the top-level statement holding it, expression) for an output / input locator of the spec."""
+    if "return_dict_key" in where:
+        idx, keys = _return_dict(fdef)
+        if where["return_dict_key"] not in keys:
+            raise Untranslatable("returned dict has no key %r" % where["return_dict_key"])
+        return idx, keys[where["return_dict_key"]]
+    if "call" in where:
+        hits = []
+        for idx, s in enumerate(fdef.body):
+            for node in ast.walk(s):
+                if isinstance(node, ast.Call):
+                    nm = _dotted(node.func)
+                    if nm is not None and nm.split(".")[-1] == where["call"]:
+                        hits.append((idx, node))
+        if len(hits) != 1:
+            raise Untranslatable("expected exactly one call to %s, found %d" % (where["call"], len(hits)))
+        idx, call = hits[0]
+        if "kw" in where:
+            vals = [k.value for k in call.keywords if k.arg == where["kw"]]
+            if len(vals) != 1:
+                raise Untranslatable("call to %s has no keyword %s" % (where["call"], where["kw"]))
+            return idx, vals[0]
+        if where["arg"] >= len(call.args) or any(isinstance(a, ast.Starred) for a in call.args):
+            raise Untranslatable("call to %s has no positional argument %d" % (where["call"], where["arg"]))
+        return idx, call.args[where["arg"]]
+    if "unpack_call" in where:
+        hits = [(idx, s) for idx, s in enumerate(fdef.body)
+                if isinstance(s, ast.Assign) and isinstance(s.value, ast.Call) and _dotted(s.value.func) == where["unpack_call"]]
+        if len(hits) != 1 or len(hits[0][1].targets) != 1 or not isinstance(hits[0][1].targets[0], ast.Tuple):
+            raise Untranslatable("expected exactly one tuple-unpacking of %s()" % where["unpack_call"])
+        idx, s = hits[0]
+        elts = s.targets[0].elts
+        if where["index"] >= len(elts):
+            raise Untranslatable("unpacking of %s() has no element %d" % (where["unpack_call"], where["index"]))
+        return idx, elts[where["index"]]
+    raise Untranslatable("unknown locator %r" % (where,))
+
+
+def _loads(node):
+    return {n.id for n in ast.walk(node) if isinstance(n, ast.Name) and isinstance(n.ctx, ast.Load)}
+
+
+def _binds(node):
+    out = set()
+    for n in ast.walk(node):
+        if isinstance(n, ast.Name) and isinstance(n.ctx, (ast.Store, ast.Del)):
+            out.add(n.id)
+        elif isinstance(n, ast.ExceptHandler) and n.name:
+            out.add(n.name)
+    return out
+
+
 def slice_function(fdef, sl):
-    targets = list(sl["targets"])
+    """Backward slice of the function body from the located output expressions down to the located inputs.
+    Locators are structural (a key of the returned dict, an argument of a named call, an element of a tuple-unpacked
+    call, a parameter), so renaming locals or reordering independent statements does not change the result."""
     stores = _stores(fdef)
+    # names bound by import statements are module-like: left to py2coq's call whitelist
+    for node in ast.walk(fdef):
+        if isinstance(node, (ast.Import, ast.ImportFrom)):
+            for a in node.names:
+                stores.pop((a.asname or a.name).split(".")[0], None)
     args = {a.arg for a in fdef.args.args}
-    for t in targets:
-        if stores.get(t, 0) != 1 or t in args:
-            raise Untranslatable("slice target %s is assigned %d times (need exactly once, not a parameter)" % (t, stores.get(t, 0)))
-    for p in sl["inputs"]:
-        k = stores.get(p, 0)
-        if not ((p in args and k == 0) or (p not in args and k == 1)):
-            raise Untranslatable("slice input %s is not a single-assignment value (argument=%s, stores=%d)" % (p, p in args, k))
-    kept, found = [], set()
-    for s in fdef.body:
-        if isinstance(s, ast.Assign) and len(s.targets) == 1 and isinstance(s.targets[0], ast.Name) and s.targets[0].id in targets:
+    # inputs: role -> local name
+    local, types = {}, {}
+    for role, spec in sl["inputs"].items():
+        if spec["from"] == "param":
+            if role not in args:
+                raise Untranslatable("parameter %s not found" % role)
+            nm = role
+        else:
+            _, e = _locate(fdef, spec["from"])
+            if not isinstance(e, ast.Name):
+                raise Untranslatable("input %s is not a plain name in the source" % role)
+            nm = e.id
+        k = stores.get(nm, 0)
+        if not ((nm in args and k == 0) or (nm not in args and k == 1)):
+            raise Untranslatable("input %s (%s) is not a single-assignment value" % (role, nm))
+        local[role], types[nm] = nm, spec["type"]
+    inputs = set(local.values())
+    outs, limit = [], 0
+    for w in sl["outputs"]:
+        idx, e = _locate(fdef, w)
+        outs.append(e)
+        limit = max(limit, idx)
+    needed = set()
+    for e in outs:
+        needed |= {n for n in _loads(e) if n in stores or n in args}
+    needed -= inputs
+    kept = []
+    for s in reversed(fdef.body[:limit]):
+        b = _binds(s)
+        if not (b & needed):
+            continue
+        if isinstance(s, ast.Assign) and len(s.targets) == 1 and \
+                (isinstance(s.targets[0], ast.Name) or (isinstance(s.targets[0], ast.Tuple) and all(isinstance(t, ast.Name) for t in s.targets[0].elts))):
             kept.append(s)
-            found.add(s.targets[0].id)
-    if found != set(targets):
-        raise Untranslatable("slice targets not all assigned by simple top-level statements: missing %s" % sorted(set(targets) - found))
-    ret = ast.parse(sl["return"], mode="eval").body
-    new = ast.FunctionDef(name=fdef.name, args=ast.arguments(posonlyargs=[], args=[ast.arg(arg=p) for p in sl["inputs"]], kwonlyargs=[],
+            needed = (needed - b) | {n for n in _loads(s.value) if n in stores or n in args}
+        elif isinstance(s, ast.AugAssign) and isinstance(s.target, ast.Name):
+            kept.append(s)
+            needed |= {n for n in _loads(s.value) if n in stores or n in args}
+        else:
+            raise Untranslatable("line %d: %s binds %s, which the sliced arithmetic depends on" % (s.lineno, type(s).__name__, sorted(b & needed)))
+        needed -= inputs
+    if needed:
+        raise Untranslatable("the sliced arithmetic depends on %s, which are neither inputs nor simple assignments" % sorted(needed))
+    kept.reverse()
+    ret = outs[0] if len(outs) == 1 else ast.Tuple(elts=outs, ctx=ast.Load())
+    order = [local[r] for r in sl["inputs"]]
+    new = ast.FunctionDef(name=fdef.name, args=ast.arguments(posonlyargs=[], args=[ast.arg(arg=p) for p in order], kwonlyargs=[],
                                                             kw_defaults=[], defaults=[]),
                           body=kept + [ast.Return(value=ret)], decorator_list=[], returns=None, type_params=[])
     ast.copy_location(new, fdef)
     ast.fix_missing_locations(new)
-    return new
+    return new, {nm: types[nm] for nm in order}
 
 
 def translate_module(repo, modname, mod):
@@ -94,14 +210,12 @@ def translate_module(repo, modname, mod):
         spec = dict(spec)
         src = open(repo.rstrip("/") + "/" + spec["source"]).read()
         fdef = py2coq.find_function(ast.parse(src), spec["qualname"])
-        digest = hashlib.sha1(ast.dump(fdef).encode()).hexdigest()[:16]
         try:
             what = "whole function"
             if "slice" in spec:
                 sl = spec["slice"]
-                fdef2 = slice_function(fdef, sl)
-                spec["params"] = {p: sl["inputs"][p] for p in sl["inputs"]}
-                what = "assignments to %s" % ", ".join(sl["targets"])
+                fdef2, spec["params"] = slice_function(fdef, sl)
+                what = "backward slice of %s" % json.dumps(sl["outputs"])
             else:
                 fdef2 = fdef
             spec["params"] = {k: _tup(v) for k, v in spec["params"].items()}
@@ -109,8 +223,8 @@ def translate_module(repo, modname, mod):
             text = Fn20(spec, fdef2).translate()
         except Untranslatable as e:
             raise Untranslatable("%s:%s: %s" % (spec["source"], spec["qualname"], e))
-        out.append("(* %s:%s lines %d-%d (%s) ast %s *)\n%s\n" % (spec["source"], spec["qualname"], fdef.lineno, fdef.end_lineno,
-                                                                 what, digest, text))
+        digest = hashlib.sha1(ast.dump(fdef2).encode()).hexdigest()[:16]      # of the translated part only
+        out.append("(* %s:%s (%s) ast %s *)\n%s\n" % (spec["source"], spec["qualname"], what, digest, text))
     out.append("End Gen.")
     return "\n".join(out) + "\n"
 
